@@ -113,6 +113,7 @@ pub struct Report {
     pub wall_s: f64,
     pub paths_with_checks: u64,
     pub discharged_syntactically: u64,
+    pub fallback_queries: u64,
 }
 
 impl Report {
@@ -160,6 +161,7 @@ impl Report {
         self.crosscheck_disagreements += o.crosscheck_disagreements;
         self.paths_with_checks += o.paths_with_checks;
         self.discharged_syntactically += o.discharged_syntactically;
+        self.fallback_queries += o.fallback_queries;
     }
     pub fn to_json(&self) -> serde_json::Value {
         serde_json::json!({
@@ -175,6 +177,7 @@ impl Report {
             "final_queries": self.final_queries,
             "checks_discharged": self.checks_discharged,
             "discharged_syntactically": self.discharged_syntactically,
+            "fallback_queries": self.fallback_queries,
             "checks_by_name": self.checks_by_name,
             "covers": self.covers,
             "violation_counts": self.violation_counts,
@@ -222,6 +225,8 @@ pub struct Ctx {
     auto: HashMap<String, u32>,
     notes: Vec<String>,
     checks_this_path: u64,
+    paths_since_restart: u64,
+    restart_every: u64,
     rep: Report,
     max_violations: usize,
     crosscheck_every: u64,
@@ -274,6 +279,8 @@ impl Ctx {
             auto: HashMap::new(),
             notes: vec![],
             checks_this_path: 0,
+            paths_since_restart: 0,
+            restart_every: std::env::var("SYMRT_SOLVER_RESTART").ok().and_then(|v| v.parse().ok()).unwrap_or(40),
             rep: Report::default(),
             max_violations: 12,
             crosscheck_every: 0,
@@ -581,11 +588,36 @@ impl Ctx {
         }
     }
 
+    fn standalone(&self, extra: Option<&str>) -> String {
+        let mut script = String::new();
+        for (n, w) in &self.path_vars {
+            if *w == 0 {
+                script.push_str(&format!("(declare-const |{}| Bool)\n", n));
+            } else {
+                script.push_str(&format!("(declare-const |{}| (_ BitVec {}))\n", n, w));
+            }
+        }
+        for t in &self.pc {
+            script.push_str(&format!("(assert {})\n", self.smt(*t)));
+        }
+        if let Some(e) = extra {
+            script.push_str(&format!("(assert {})\n", e));
+        }
+        script
+    }
+
     /// sat(PC /\ t)?   None = unknown
     fn query(&mut self, t: T) -> Option<bool> {
         let s = self.smt(t);
         self.rep.solver_queries += 1;
-        let r = self.timed(|sv| sv.check_with(&s));
+        let mut r = self.timed(|sv| sv.check_with(&s));
+        if r.is_none() {
+            self.rep.fallback_queries += 1;
+            let script = self.standalone(Some(&s));
+            let t0 = Instant::now();
+            r = solver::oneshot_robust(&script, &[], false).map(|m| m.is_some());
+            self.rep.solver_time_s += t0.elapsed().as_secs_f64();
+        }
         if r.is_none() {
             self.rep.inconclusive += 1;
         }
@@ -595,7 +627,12 @@ impl Ctx {
     fn refresh_model(&mut self) -> bool {
         self.rep.solver_queries += 1;
         let vars = self.path_vars.clone();
-        let r = self.timed(|sv| sv.check_and_model(&vars));
+        let mut r = self.timed(|sv| sv.check_and_model(&vars));
+        if r.is_none() {
+            self.rep.fallback_queries += 1;
+            let script = self.standalone(None);
+            r = solver::oneshot_robust(&script, &vars, true);
+        }
         match r {
             Some(Some(m)) => {
                 self.model = m;
@@ -1031,7 +1068,12 @@ pub fn check(name: &str, cond: T) -> bool {
         let s = c.smt(ncond);
         c.rep.solver_queries += 1;
         let vars = c.path_vars.clone();
-        let r = c.timed(|sv| sv.check_with_model(&s, &vars));
+        let mut r = c.timed(|sv| sv.check_with_model(&s, &vars));
+        if r.is_none() {
+            c.rep.fallback_queries += 1;
+            let script = c.standalone(Some(&s));
+            r = solver::oneshot_robust(&script, &vars, true);
+        }
         // optional cross-check with z3
         let do_cross = c.crosscheck_every > 0
             && (c.rep.final_queries + c.seed) % c.crosscheck_every == 0
@@ -1167,6 +1209,13 @@ fn explore_thread(
         }
         // path start
         with(|c| {
+            c.paths_since_restart += 1;
+            if c.paths_since_restart > c.restart_every {
+                // cvc5's incremental core slows down after many push/pop rounds: start a fresh process
+                c.solver = None;
+                c.declared.clear();
+                c.paths_since_restart = 0;
+            }
             c.arena.clear();
             c.widths.clear();
             c.var_ids.clear();
